@@ -373,7 +373,13 @@ def setup():
         print('setup: fewer than 4 CPUs available (%d)' % len(cpus))
         return 2
     targets = set()
+    try:
+        ready = json.loads((VERIF / 'vp' / 'manifest_meta.json').read_text()).get('ready')
+    except Exception:  # noqa: BLE001
+        ready = None
     for pid, spec in props.PROPS.items():
+        if ready is not None and pid not in ready:
+            continue        # work in progress: not claimed in MANIFEST.json, must not break setup
         for c in spec['cases']('quick', 1):
             targets.add(c['bin'])
     try:
